@@ -666,6 +666,36 @@ fn parse_recipe(s: &str) -> Option<Vec<IoAct>> {
     s.split(';').filter(|x| !x.trim().is_empty()).map(|x| IoAct::parse(x.trim())).collect()
 }
 
+/// C18: the byte-buffer case space as (history, call) pairs that do not depend on any build's memory image:
+/// every (front slot, length) layout reached by `write(s); consume(s); write(l)`, and from each the whole
+/// I/O alphabet, the provided methods, the deque calls of the byte twin and the boundary-sensitive hash.
+pub fn c18_io_cases(n: usize) -> Vec<(Vec<IoAct>, Vec<IoAct>)> {
+    let mut acts = io_alphabet(n);
+    acts.extend(provided_alphabet(n, true));
+    acts.push(IoAct::HashIt);
+    let mut v = vec![];
+    for s in 0..n.max(1) {
+        for l in 0..=n {
+            let recipe = if s == 0 { vec![IoAct::Write(l)] } else { vec![IoAct::Write(s), IoAct::Consume(s), IoAct::Write(l)] };
+            v.push((recipe, acts.clone()));
+        }
+    }
+    v
+}
+
+/// C18: everything observable about one (history, call) pair of the byte space, as one transcript line
+pub fn c18_io_line<const N: usize>(recipe: &[IoAct], act: &IoAct) -> String {
+    crate::set_case(&format!("n={}|ctor=io|recipe={}|filling=none|act={}|fault=none|extra=c18", N, recipe_str(recipe), act.show()));
+    let ((obs, contents, _key, probs, panicked), follow) = with_followup(|| io_case::<N>(recipe, act, Via::Std));
+    format!("{} {:?} contents {:?} follow-up {:?} problems {:?}", if panicked { "panicked" } else { "returned" }, obs, contents, follow, probs)
+}
+pub fn c18_parse_io(recipe: &str, act: &str) -> Option<(Vec<IoAct>, IoAct)> {
+    Some((parse_recipe(recipe)?, IoAct::parse(act)?))
+}
+pub fn c18_recipe_str(r: &[IoAct]) -> String {
+    recipe_str(r)
+}
+
 /// One checked I/O step from the state `recipe`: returns (observation, contents after, key after, problems)
 pub fn io_case<const N: usize>(recipe: &[IoAct], act: &IoAct, via: Via) -> (IoObs, Vec<u8>, Vec<u8>, Vec<String>, bool) {
     io_case_routed::<N>(recipe, default_via(), act, via)
